@@ -353,12 +353,27 @@ func TestMuSig2KeyAgg(t *testing.T) {
 				t.Fatalf("PubKey of %x = %x, reference %x", s.privs[i], k.SerializeCompressed(), s.pkBytes[i])
 			}
 		}
-		agg, parityAcc, tweakAcc, err := musig2.AggregateKeys(keys, s.sort, p.keyAggOpts()...)
+		// one option list, used for every aggregation of this case: a caller derives the
+		// key once for funding and again later to check a signature
+		sharedOpts := p.keyAggOpts()
+		agg, parityAcc, tweakAcc, err := musig2.AggregateKeys(keys, s.sort, sharedOpts...)
 		if (err == nil) != (p.refErr == nil) {
 			t.Fatalf("AggregateKeys(%s): err=%v, BIP327 reference err=%v", describe(s, p), err, p.refErr)
 		}
 		if err != nil {
 			return
+		}
+		for rep := 2; rep <= 3; rep++ {
+			again, _, _, err := musig2.AggregateKeys(s.btcdKeys(), s.sort, sharedOpts...)
+			if err != nil || !secp.Equal(pointOf(again.FinalKey), p.ctx.Q) {
+				t.Fatalf("AggregateKeys(%s), call #%d with the same option values: err=%v key %x, BIP327 reference %x (the first call matched)", describe(s, p), rep, err,
+					func() []byte {
+						if again == nil {
+							return nil
+						}
+						return again.FinalKey.SerializeCompressed()
+					}(), secp.SerializeCompressed(p.ctx.Q))
+			}
 		}
 		if !secp.Equal(pointOf(agg.PreTweakedKey), p.ctx0.Q) {
 			t.Fatalf("AggregateKeys(%s): pre-tweak key %x, BIP327 KeyAgg %x", describe(s, p), agg.PreTweakedKey.SerializeCompressed(), secp.SerializeCompressed(p.ctx0.Q))
